@@ -1232,6 +1232,63 @@ def _fold_new_class_constants(mods, known):
     return folded
 
 
+def expand_name_table_dispatch(mods, known_consts_):
+    """`class S: _HANDLERS = {"a": "serve_a", ..}` ... `getattr(self, self._HANDLERS.get(k, "serve_default"))`
+    is the table of bound methods `{"a": self.serve_a, ..}.get(k, self.serve_default)` written with
+    names: a class-level dict of str -> method name that is not on the pinned tree is expanded at
+    such getattr sites (exact desugaring: the names are those of methods of the class)."""
+    done = []
+    for rel, tree in mods.items():
+        for cls in (x for x in ast.walk(tree) if isinstance(x, ast.ClassDef)):
+            methods = {m.name for m in cls.body if isinstance(m, (ast.FunctionDef, ast.AsyncFunctionDef))}
+            tables = {}
+            for st in cls.body:
+                tgt = val = None
+                if isinstance(st, ast.Assign) and len(st.targets) == 1 and isinstance(st.targets[0], ast.Name):
+                    tgt, val = st.targets[0].id, st.value
+                elif isinstance(st, ast.AnnAssign) and isinstance(st.target, ast.Name) and st.value is not None:
+                    tgt, val = st.target.id, st.value
+                if tgt and isinstance(val, ast.Dict) and val.keys and all(isinstance(k, ast.Constant) and isinstance(k.value, str) for k in val.keys) and all(isinstance(v, ast.Constant) and isinstance(v.value, str) and v.value in methods for v in val.values):
+                    if f"{rel}:{cls.name}.{tgt}" not in known_consts_ and f"{rel}:{tgt}" not in known_consts_:
+                        tables[tgt] = val
+            if not tables:
+                continue
+
+            class T(ast.NodeTransformer):
+                def visit_Call(self, n):
+                    self.generic_visit(n)
+                    if not (isinstance(n.func, ast.Name) and n.func.id == "getattr" and len(n.args) == 2 and not n.keywords):
+                        return n
+                    obj, sel = n.args
+                    def tab(e):
+                        if isinstance(e, ast.Attribute) and e.attr in tables and isinstance(e.value, ast.Name) and e.value.id in ("self", "cls", cls.name):
+                            return tables[e.attr]
+                        return None
+                    def bound(name):
+                        return ast.Attribute(value=copy.deepcopy(obj), attr=name, ctx=ast.Load())
+                    if isinstance(sel, ast.Call) and isinstance(sel.func, ast.Attribute) and sel.func.attr == "get" and tab(sel.func.value) is not None and 1 <= len(sel.args) <= 2 and not sel.keywords:
+                        d = tab(sel.func.value)
+                        dflt = sel.args[1] if len(sel.args) == 2 else None
+                        if dflt is not None and not (isinstance(dflt, ast.Constant) and isinstance(dflt.value, str) and dflt.value in methods):
+                            return n
+                        disp = ast.Dict(keys=[copy.deepcopy(k) for k in d.keys], values=[bound(v.value) for v in d.values])
+                        new = ast.Call(func=ast.Attribute(value=disp, attr="get", ctx=ast.Load()), args=[sel.args[0]] + ([bound(dflt.value)] if dflt is not None else []), keywords=[])
+                        done.append((rel, getattr(n, "lineno", 0)))
+                        return ast.copy_location(new, n)
+                    if isinstance(sel, ast.Subscript) and tab(sel.value) is not None:
+                        d = tab(sel.value)
+                        disp = ast.Dict(keys=[copy.deepcopy(k) for k in d.keys], values=[bound(v.value) for v in d.values])
+                        done.append((rel, getattr(n, "lineno", 0)))
+                        return ast.copy_location(ast.Subscript(value=disp, slice=sel.slice, ctx=ast.Load()), n)
+                    return n
+
+            for m in cls.body:
+                if isinstance(m, (ast.FunctionDef, ast.AsyncFunctionDef)):
+                    T().visit(m)
+        ast.fix_missing_locations(tree)
+    return done
+
+
 # ------------------------------------------- reflective loops over option names
 def unroll_reflective_loops(mods):
     """`for name in ("a", "b"): setattr(obj, name, d.get(name, getattr(obj, name)))`
@@ -1716,12 +1773,16 @@ def normalise(mods, known=None):
     from . import renames
 
     kf, kc = renames.load_known()
+    # before names are put back: the table spells method names as strings
+    table_sites = expand_name_table_dispatch(mods, known_constants())
     renamed = renames.undo_renames(mods, kf, kc) if isinstance(kf, dict) else []
     protected = renames.weak_candidates(mods, kf) if isinstance(kf, dict) else set()
     folded = fold_new_constants(mods, known_constants())
     for what, old, new_, score in renamed:
         folded.append((f"{what} {new_} is known as {old} (body match {score})", 0))
     expand_match_spans(mods)
+    for rel, ln in table_sites:
+        folded.append((f"name table of handlers in {rel} expanded to bound methods", ln))
     for rel, ln, n in unroll_reflective_loops(mods):
         folded.append((f"loop over {n} option names in {rel}", ln))
     for rel, ln, n in unroll_new_table_loops(mods, kf):
